@@ -332,6 +332,7 @@ func runOne(w *cl.World, c *Case, base string) (*Result, error) {
 		res.Steps = append(res.Steps, st)
 	}
 	dump(Step{})
+	curDir, restarts := dir, 0
 	pending := map[int]map[int]bool{} // target label -> keys with a cached verification message
 	for _, e := range c.Events {
 		switch e.Kind {
@@ -412,10 +413,17 @@ func runOne(w *cl.World, c *Case, base string) (*Result, error) {
 				return res, nil
 			}
 		case "restart":
+			// the old node object stays alive (its background goroutine may still read its store); the new
+			// node opens a copy of the database directory: exactly the bytes a reopened node would find
 			sub.Unsubscribe()
-			n.Close()
 			pending = map[int]map[int]bool{}
-			n, err = cl.NewNode(dir)
+			restarts++
+			ndir := fmt.Sprintf("%s_r%d", dir, restarts)
+			if err := copyDir(curDir, ndir); err != nil {
+				return nil, err
+			}
+			curDir = ndir
+			n, err = cl.NewNode(curDir)
 			if err != nil {
 				st := Step{Err: true, ErrText: "restart: " + err.Error()}
 				res.Steps = append(res.Steps, st)
@@ -441,6 +449,36 @@ func (r *runner) storedSet(n *cl.Node) map[int]bool {
 		}
 	}
 	return m
+}
+
+func copyDir(from, to string) error {
+	if err := os.MkdirAll(to, 0755); err != nil {
+		return err
+	}
+	ents, err := os.ReadDir(from)
+	if err != nil {
+		return err
+	}
+	for _, e := range ents {
+		src, dst := filepath.Join(from, e.Name()), filepath.Join(to, e.Name())
+		if e.IsDir() {
+			if err := copyDir(src, dst); err != nil {
+				return err
+			}
+			continue
+		}
+		if e.Name() == "LOCK" {
+			continue
+		}
+		b, err := os.ReadFile(src)
+		if err != nil {
+			return err
+		}
+		if err := os.WriteFile(dst, b, 0644); err != nil {
+			return err
+		}
+	}
+	return nil
 }
 
 func inTree(n *cl.Node, h bc.Hash) bool {
